@@ -268,6 +268,10 @@ def check_program(prog, driver, target="sql.sqlite", k=2, schema=None, timeout_m
             o = confirm_concrete(prog, text, sql_text, schema, "LIMIT without ORDER BY while the take is positional")
             if o is not None:
                 return o
+        if "bare column" in str(e) and executable:
+            o = confirm_concrete(prog, text, sql_text, schema, str(e))
+            if o is not None:
+                return o
         return Outcome("sql_unsupported", prql=text, sql=sql_text, detail=str(e))
     # schema: arity, then names where PRQL names the column
     if not executable:
